@@ -9,13 +9,19 @@ THEOREMS = ['MindsVerif.Props.C11.' + n for n in (
     'C11_decision_sound', 'C11_names', 'C11_resolution', 'C11_resolution_names', 'C11_resolution_exact',
     'C11_exactness_needs_hypothesis', 'C11_regression_1', 'C11_regression_2', 'C11_regression_3', 'C11_regression_4')]
 ASSUME = [
-    'get_query_info, check_single_integration, prepare_integration_select and the walker are hand-modelled '
-    '(Model/Route.lean); tie = the plan stream of this run (decision + identifiers of the pushed query vs the real planner)',
-    'T11.1 is a theorem about NAME RESOLUTION (what every column reference denotes) in a small semantics written for '
-    'this property (Model/Route.lean: matchesCol / resolveCol); it is validated against sqlite3 in this run (sem stream); '
+    'get_query_info (bare CTE names skipped), check_single_integration with the CTE-capture guard, prepare_integration_select '
+    '(alias-aware cut: aliases, CTE names, own names of unaliased tables are local names) and the walker view are hand-modelled '
+    '(Model/Route.lean); tie = the plan stream of this run (decision + identifiers of the pushed query vs the real planner) and '
+    'the obligations corr:route-variant / probe:table-names-local',
+    'T11.1 (C11_resolution) is a theorem about NAME RESOLUTION (what every column reference denotes; scopes, CTE bodies and '
+    'derived tables as scopes of their own) in a small semantics written for this property (Model/Route.lean: matchesCol / '
+    'resolveCol / resolveAll); it is validated against sqlite3 in this run (sem stream, incl. references inside windows); '
     'evaluation of whole queries is not modelled: the end-to-end claim is probed by executing original and pushed query in sqlite3',
-    'sqlite3 (ATTACHed database = integration) is the reference engine of the probe; column names of unaliased '
-    'expression targets are engine-defined and not compared',
+    'modelling boundary of the semantics: a CTE / derived table is read as a table of the integration, so a database-qualified '
+    'reference to it would resolve in the model but not in sqlite3; such references are not generated',
+    'the Sel abstraction of a query is not computed from the Node abstraction in Lean; both cuts call the same stripPartsN',
+    'sqlite3 (ATTACHed database = integration) is the reference engine of the probe; column names of unaliased expression '
+    'targets are engine-defined and not compared',
     'names are ASCII',
 ]
 DB = 'int1'
@@ -523,7 +529,7 @@ def run(chk):
     for c, sql, feats in stmts[:3]:
         chk.samples.append(dict(sql=sql, catalog=c.kwargs(), features=feats))
     chk.samples.append(dict(theorem='C11_resolution : ∀ db sch s, keepsAll (resolveAll true db sch [] s) (resolveAll false db sch [] (stripSel db (aliasesOf s) s))   -- keeps a b := a = notFound ∨ b = a'))
-    chk.samples.append(dict(theorem='C11_decision : visit q ≠ [] → allResolveTo c i (visit q) → i ∉ projects → i ≠ files/views → classType i ≠ api → planTop c ctes q = some [fetch i (strip i q)]'))
+    chk.samples.append(dict(theorem='C11_partial_decision : (visit q).any (counted true ctes) → (∀ it ∈ visit q, itemFine true c ctes i it) → i ∉ projects → i ≠ files/views → classType i ≠ api → captures ctes q = false → planTop true names c ctes q = some [fetch i (strip i names q)]'))
     return chk.finish(assumptions=ASSUME)
 
 
